@@ -73,6 +73,12 @@ func main() {
 		fmt.Println(string(b))
 	case "run":
 		os.Exit(cmdRun(os.Args[2:]))
+	case "detjobs": // debugging aid: the job lines of the determinism self-test sample
+		n, _ := strconv.Atoi(os.Args[3])
+		for i := 0; i < 32 && i < n; i++ {
+			idx := (i * 7919) % n
+			fmt.Printf("{\"id\":%d,\"prop\":%q,\"seed\":%d,\"tier\":\"quick\"}\n", idx, os.Args[2], plan.EpisodeSeed(baseSeed(), os.Args[2], uint64(idx)))
+		}
 	default:
 		usage()
 	}
@@ -107,15 +113,17 @@ func buildWorker(race bool) (string, error) {
 		if err != nil {
 			return "", err
 		}
-		altMod := filepath.Join(root, "build", "alt.mod")
+		// unique per invocation: several experiments may run at the same time
+		tag := fmt.Sprintf("alt-%d", os.Getpid())
+		altMod := filepath.Join(root, "build", tag+".mod")
 		os.WriteFile(altMod, []byte(strings.Replace(string(gm), "=> /repo", "=> "+alt, 1)+"\n"), 0o644)
 		alt2 := strings.Replace(string(gm), "=> /repo", "=> "+alt, 1)
 		alt2 = strings.Replace(alt2, "=> ./third_party/porcupine", "=> "+filepath.Join(root, "third_party/porcupine"), 1)
 		os.WriteFile(altMod, []byte(alt2), 0o644)
 		if b, err := os.ReadFile(filepath.Join(root, "go.sum")); err == nil {
-			os.WriteFile(filepath.Join(root, "build", "alt.sum"), b, 0o644)
+			os.WriteFile(filepath.Join(root, "build", tag+".sum"), b, 0o644)
 		}
-		out = strings.TrimSuffix(out, ".test") + "-alt.test"
+		out = strings.TrimSuffix(out, ".test") + "-" + tag + ".test"
 		for i, a := range args {
 			if a == "-o" {
 				args[i+1] = out
